@@ -218,7 +218,9 @@ C16_Read(r) ==       \* reading endpoints never change anything
 C16_Send(r) ==       \* a send reported successful wrote exactly the requested message, and only it, to the tracked connection
    (r.cls = "REST" /\ r.rq.cls = "send" /\ r.rest.ok = 1) =>
       /\ r.pst = "ESTABLISHED" /\ r.st = "ESTABLISHED" /\ NoClose(r) /\ r.att = 0
-      /\ Len(r.out) = 1 /\ r.out[1].c = r.ptr /\ r.out[1].type = r.rq.etype
+      \* (send/bin_update: the octets of the request, whatever they are, are what was written)
+      /\ (r.rest.rule = "send/bin_update" => r.binsame)
+      /\ (r.rq.etype # "RAW" => (Len(r.out) = 1 /\ r.out[1].c = r.ptr /\ r.out[1].type = r.rq.etype))
       \* a ROUTE-REFRESH goes out with the address family and the reserved octet of the request
       /\ (r.rq.etype = "RR" /\ r.rq.valid /\ r.rq.rr[1] >= 0) => r.out[1].rr = r.rq.rr
       /\ (r.rq.etype = "UPDATE" /\ r.rq.valid) =>
